@@ -21,20 +21,21 @@ import (
 
 // engine mvcc: one goroutine drives a real Nitro instance (see PROTOCOL.md).
 type mvccEngine struct {
-	db      *nitro.Nitro
-	kv      bool
-	mm      bool
-	alloc   *guardalloc.Alloc
-	writers []*nitro.Writer
-	snaps   []*nitro.Snapshot
-	refs    []int // references the script holds on each snapshot (creation + opens + iterators)
-	iters   map[string]*mvIter
-	handles map[string]*skiplist.Node
-	down    bool
-	delta   bool
-	nw      int
-	bkdir   string         // directory of the last store
-	old     []*nitro.Nitro // instances replaced by `load`, closed at teardown
+	db        *nitro.Nitro
+	kv        bool
+	mm        bool
+	alloc     *guardalloc.Alloc
+	writers   []*nitro.Writer
+	snaps     []*nitro.Snapshot
+	refs      []int // references the script holds on each snapshot (creation + opens + iterators)
+	iters     map[string]*mvIter
+	handles   map[string]*skiplist.Node
+	down      bool
+	delta     bool
+	nw        int
+	bkdir     string         // directory of the last store
+	lastSteps int            // file-system steps counted by the last crashload
+	old       []*nitro.Nitro // instances replaced by `load`, closed at teardown
 
 	sent, done int64 // gc lists sent by collectDead / finished by the collection workers
 }
@@ -464,7 +465,7 @@ func (e *mvccEngine) step(toks []string) string {
 			nodes = fmt.Sprintf("%d/stat=%d/marked=%d", live, stat, marked)
 		}
 		return fmt.Sprintf("nodes=%s lastgc=%d snaps=%d", nodes, e.db.GetLastGCSn(), len(e.db.GetSnapshots()))
-	case "store", "image", "loadimg", "load", "storeload", "crashload", "manifest":
+	case "store", "image", "loadimg", "load", "storeload", "crashload", "manifest", "laststeps":
 		return e.backupOp(toks)
 	case "shutdown":
 		for _, r := range e.refs {
